@@ -217,6 +217,7 @@ func ClientConfigs(ctx context.Context, n *types.NodeCredentials, opt ...nodeenr
 
 		tlsConfigs = append(tlsConfigs, tlsConfig)
 	}
+	simOrderConfigs(tlsConfigs)
 
 	return tlsConfigs, nil
 }
